@@ -131,14 +131,28 @@ pub fn run(ctx: &Ctx) -> Report {
     }
     let npairs = pairs.len() as u64;
     let pb: &[usize] = if ctx.thorough { &budgets } else { &one_budget };
-    rep.absorb(par_run(npairs * nl, |i, l| {
-        let d = decode(i, &[nl, npairs]);
-        let (a, b) = pairs[d[1] as usize];
-        for split in [false, true] {
-            let prog = c01::f1_prog_blocks(&[&pool[a], &pool[b]], &lines[d[0] as usize], split);
-            judge_src(&prog.render(), "C01-F1-2", blank_split_key(&prog), pb, l);
-        }
-    }));
+    if ctx.thorough {
+        rep.absorb(par_run(npairs * nl, |i, l| {
+            let d = decode(i, &[nl, npairs]);
+            let (a, b) = pairs[d[1] as usize];
+            for split in [false, true] {
+                let prog = c01::f1_prog_blocks(&[&pool[a], &pool[b]], &lines[d[0] as usize], split);
+                judge_src(&prog.render(), "C01-F1-2", blank_split_key(&prog), pb, l);
+            }
+        }));
+    } else {
+        // quick: every pair x the lines either of its two rules produces (thorough: every line of the pool)
+        let own: Vec<Vec<String>> = pool.iter().map(|tp| c01::lines_of(tp, false)).collect();
+        rep.absorb(par_run(npairs, |i, l| {
+            let (a, b) = pairs[i as usize];
+            for ln in own[a].iter().chain(own[b].iter()) {
+                for split in [false, true] {
+                    let prog = c01::f1_prog_blocks(&[&pool[a], &pool[b]], ln, split);
+                    judge_src(&prog.render(), "C01-F1-2", blank_split_key(&prog), pb, l);
+                }
+            }
+        }));
+    }
     // F2 sequences
     let items = c01::f2_items();
     let k = items.len() as u64;
